@@ -64,7 +64,7 @@ static std::string state_key(const World &w) {
 static void setup(Runner &r, const Tier &t) {
     g_thor = t.thorough; g_roots.clear();
     struct FS { std::string f; std::vector<std::string> tx; };
-    std::vector<FS> fs = { { gen_dir() + "/s_min.ttf", { "ab", "ba", "c", "abc" } }, { gen_dir() + "/s_full.ttf", { "ab", "c\xCC\x81", "de f", "a\xCC\x81\xCC\x80" } }, { font_path("small.ttf"), { "abc", "cab", "aa", "b" } }, { gen_dir() + "/s_full_pb.ttf", { "f", "fd", "af", "cd e" } } };
+    std::vector<FS> fs = { { gen_dir() + "/s_min.ttf", { "ab", "ba", "c", "abc" } }, { gen_dir() + "/s_full.ttf", { "cd", "c\xCC\x81", "de f", "a\xCC\x81\xCC\x80" } }     /* "cd": the advance of c is changed by a contextual rule; "c" + mark: the same glyph with its own advance */, { font_path("small.ttf"), { "abc", "cab", "aa", "b" } }, { gen_dir() + "/s_full_pb.ttf", { "f", "fd", "af", "cd e" } } };
     if (t.thorough) fs.push_back({ font_path("Padauk.ttf"), { "\xE1\x80\x80\xE1\x80\xBB\xE1\x80\xBD\xE1\x80\x94\xE1\x80\xBA", "\xE1\x80\x99\xE1\x80\xBC\xE1\x80\x94\xE1\x80\xBA", "ab" } });
     for (auto &f : fs) for (unsigned o : { 0u, 2u, 4u, 6u }) for (int h = 0; h < 2; ++h) g_roots.push_back({ f.f, o, h == 1, f.tx });
     r.ncases = g_roots.size() * 2; r.case_alarm_s = unsigned(r.deadline_s) + 600;
@@ -82,12 +82,12 @@ static void setup(Runner &r, const Tier &t) {
         while (!q.empty() && !failed) {
             if (deadline_hit(ctl)) { frontier_emptied = false; break; }
             Node n = q.front(); q.pop_front(); World w; if (!make(w)) { close(w); break; }
-            for (int o : n.hist) { apply(w, rt, o); ++trans; }
+            for (int o : n.hist) { CallGuard cg(30); apply(w, rt, o); ++trans; }
             std::string key = state_key(w);
             bool isnew = plain || seen.insert(key).second;
             if (isnew) {
                 ++states;
-                for (size_t pi = 0; pi < pl.size() && !failed; ++pi) { std::string got = run_probe(w, rt, pl[pi]); const std::string &want = fresh[pi];
+                for (size_t pi = 0; pi < pl.size() && !failed; ++pi) { std::string got; { CallGuard cg(30); got = run_probe(w, rt, pl[pi]); } const std::string &want = fresh[pi];
                     if (got != want) { std::string hs; for (int o : n.hist) hs += std::to_string(o) + " "; size_t p = 0; while (p < got.size() && p < want.size() && got[p] == want[p]) ++p;
                         JObj o; o.kv("font", rt.font).kv("face_options", rt.opts).kv("hinted", rt.hinted).kv("kind", "history_dependence").kv("history_ops", hs).kv("state_key", key).kv("probe_index", (unsigned long long)pi).kv("probes_before_it_in_this_state", (unsigned long long)pi)
                             .kv("first_difference", want.substr(p > 80 ? p - 80 : 0, 200) + " <> " + got.substr(p > 80 ? p - 80 : 0, 200)); report_fail(ci, o); failed = true; } }
